@@ -30,14 +30,20 @@ def variants(p, lm):
     f = framing.build_frame(p)
     a = RTCMMessage(payload=p, labelmsm=lm)
     b = RTCMReader.parse(f, labelmsm=lm)
-    got = list(RTCMReader(io.BytesIO(f), labelmsm=lm, quitonerror=2))
-    if len(got) != 1:
-        raise Fail("reader-lost-frame", f"reader with labelmsm={lm!r} returned {len(got)} results for one frame")
-    c = got[0][1]
-    pa, pb, pc = pub(a), pub(b), pub(c)
-    if pa != pb or pa != pc:
-        which = "static parser" if pa != pb else "stream reader"
-        raise Fail("option-not-passed-through", f"labelmsm={lm!r}: {which} result differs from RTCMMessage(payload, labelmsm)")
+    pa, pb = pub(a), pub(b)
+    if pa != pb:
+        raise Fail("option-not-passed-through", f"labelmsm={lm!r}: static parser result differs from RTCMMessage(payload, labelmsm)")
+    if pub(RTCMReader.parse(f, validate=0, labelmsm=lm)) != pa:
+        raise Fail("option-not-passed-through", f"labelmsm={lm!r}: static parser with validate=0 differs from RTCMMessage(payload, labelmsm)")
+    # every reader configuration must hand the option to the parse (two frames: the option must reach every parse)
+    for val in (1, 0):
+        for qoe in (2, 0):
+            got = list(RTCMReader(io.BytesIO(f + f), labelmsm=lm, quitonerror=qoe, validate=val))
+            if len(got) != 2:
+                raise Fail("reader-lost-frame", f"reader with labelmsm={lm!r} validate={val} returned {len(got)} results for two frames")
+            for k, (_, c) in enumerate(got):
+                if pub(c) != pa:
+                    raise Fail("option-not-passed-through", f"labelmsm={lm!r}: stream reader (validate={val}, quitonerror={qoe}, frame {k}) differs from RTCMMessage(payload, labelmsm)")
     return pa
 
 
